@@ -16,7 +16,7 @@ RULE = ("decoders: 12 unmarshall_datain (INQUIRY standard and every VPD page, MO
         "truncation length. Budget: 2000 + 400 x len(buffer) traced source lines inside /repo/pyscsi; exceeding it is the violation. "
         "Non-trivial = buffer differs from the well-formed base; distinct = distinct (decoder, buffer).")
 ASSUMPTIONS = [
-    "work is measured in executed Python source lines inside the library (sys.settrace); the budget 2000 + 400 lines per buffer byte is >= 6x the worst legitimate cost measured (about 60 lines per descriptor byte)",
+    "work is measured in executed Python source lines inside the library (sys.settrace); the budget 2000 + 400 lines per buffer byte is about 2x the worst terminating cost measured (READ ELEMENT STATUS with a hostile descriptor length of 1: ~200 lines per byte); evidence key max_lines_within_budget reports the measured maxima per decoder",
     "returning or raising any ordinary exception within the budget is acceptable; memory is not measured separately (the decoders only slice the buffer they are given)",
 ]
 VALS5 = (0x00, 0x01, 0x7F, 0x80, 0xFF)
